@@ -127,19 +127,12 @@ def straddles(img, enc):
 
 
 def supported(img, enc):
-    """mirror of Spec.supportedB (lean/Drx/BitdSpec.lean) = complement of the open findings F34, F90, F91, F92"""
+    """mirror of Spec.supportedB (lean/Drx/BitdSpec.lean) = complement of the open finding F34"""
     if not ((img["W"] + 1) * (img["H"] + 1) * 4 + 2000 < 2 ** 31):
         return False
-    d = img["depth"]
-    if d in (1, 8):
+    if img["depth"] in (1, 8):
         return True
-    if enc == "raw":
-        return False                                                      # F34
-    if img["ox"] != 0 or img["oy"] != 0:
-        return False                                                      # F91 / F92
-    if d == 16:
-        return not straddles(img, enc)                                    # F90
-    return len(S.serialise_packed(enc)) != 2 * S.iw(img) * S.ih(img)      # F34: the 32-bit raw test counts 2 bytes per pixel
+    return enc != "raw"                                                   # F34: raw 16/32-bit storage
 
 
 def in_quantifier(img, pad, enc, data):
@@ -279,17 +272,17 @@ def planar_cases(rng, n):
         confined = True
         kinds = ["one", "bytes", "rand", "lits"]
         kind = "planar-%d" % depth
-        if r < 0.12 and W > 1:
-            ox = rng.randrange(1, W); kind += "-offset"
-        elif r < 0.2 and H > 1:
+        if r < 0.25 and W > 1:
+            ox = rng.randrange(1, W); oy = rng.randrange(0, H); kind += "-offset"
+        elif r < 0.35 and H > 1:
             oy = rng.randrange(1, H); kind += "-offset"
-        elif r < 0.3:
+        elif r < 0.5:
             confined = False; kind += "-straddle"
-        elif r < 0.36:
+        elif r < 0.56:
             kinds = ["raw", "one"]; kind += "-raw"
         img = rand_img(rng, depth, W, H, ox, oy)
         out.append(image_case(rng, img, 0, kinds, kind=kind, confined=confined))
-    # 32-bit streams of exactly 2*w*h bytes (one run per plane, W = 4): the decoder's raw test fires (F34)
+    # 32-bit streams of exactly 2*w*h bytes (one run per plane, W = 4): the decoder's raw test used to fire (F93, fixed)
     for H in (1, 2, 3):
         img = dict(depth=32, W=4, H=H, ox=0, oy=0, pix=[[[5, 6, 7, 8]] * 4 for _ in range(H)])
         enc = [[["run", 4, 5], ["run", 4, 6], ["run", 4, 7], ["run", 4, 8]] for _ in range(H)]
@@ -307,8 +300,8 @@ def large_cases(rng, n):
         if depth in (16, 32):
             W = min(W, 140)
         H = rng.randrange(1, 12)
-        ox = rng.choice([0, 0, 1, 15, 16, 17, rng.randrange(0, W)]) if depth in (1, 8) else 0
-        oy = rng.choice([0, 0, 1, rng.randrange(0, H)]) if depth in (1, 8) else 0
+        ox = rng.choice([0, 0, 1, 15, 16, 17, rng.randrange(0, W)])
+        oy = rng.choice([0, 0, 1, rng.randrange(0, H)])
         ox = min(ox, W - 1)
         img = rand_img(rng, depth, W, H, ox, oy)
         kinds = (["raw"] if depth in (1, 8) else []) + ["one", "rand"]
@@ -326,7 +319,7 @@ def malformed_cases(rng, n):
         ox = rng.choice([0, 0, rng.randrange(0, W + 2)]); oy = rng.choice([0, 0, rng.randrange(0, H + 2), -1])
         r = rng.random()
         if r < 0.5 and ox < W and 0 <= oy < H:
-            img = rand_img(rng, depth, W, H, ox if depth in (1, 8) else 0, oy if depth in (1, 8) else 0)
+            img = rand_img(rng, depth, W, H, ox, oy)
             rows = S.raw_rows(img, rng.randrange(256))
             data = bytearray(S.serialise_packed([S.seg_to_ops(x, seg_cuts(rng, x, "rand", 1)) for x in rows]))
             m = rng.random()
@@ -342,7 +335,8 @@ def malformed_cases(rng, n):
         else:
             data = bytes(rng.choice([0x80, 0xFF, 0x81, 0, 1, 2, 0x7F, rng.randrange(256)]) for _ in range(rng.choice([0, 1, 2, 3, rng.randrange(0, 40)])))
         c = c13.call(depth, W, H, ox, oy, data)
-        out.append(Case(kind="malformed", spec=dict(depth=depth, W=W, H=H, ox=ox, oy=oy, data=data.hex()), lines=["bitd decode " + c13.tok(c)], expect=[None]))
+        out.append(Case(kind="malformed", spec=dict(depth=depth, W=W, H=H, ox=ox, oy=oy, data=data.hex()),
+                        lines=["bitd decode " + c13.tok(c), "bitd steps " + c13.tok(c)], expect=[None, None]))
     return out
 
 
@@ -367,6 +361,14 @@ def impl(case):
         if t[1] == "decode":
             import c13
             out.append(canon(c13.run_call(m, c13.untok(t[2]))))
+            continue
+        if t[1] == "steps":
+            # loop rounds of the real code (C10 support): compared with the Lean counting twin
+            import c13
+            c = c13.untok(t[2])
+            cd = dict(height=c["H"], width=c["W"], depth=c["depth"], w_padding=c["ox"], h_padding=c["oy"], palette_txt=c["pal"])
+            r = S.real_loop_rounds(cd, c["clut"], c["data"])
+            out.append(canon(r) if r is not None else None)
             continue
         img, pad, enc, data = parse_line(line)
         try:
@@ -427,14 +429,8 @@ def failures_of(case, io_):
 
 def classify(img, enc, data):
     """id of the open finding whose (narrow) class contains this input, or None"""
-    d = img["depth"]
-    if d in (16, 32):
-        if enc == "raw" or (d == 32 and len(data) == 2 * S.iw(img) * S.ih(img)):
-            return "F34"
-        if img["ox"] != 0 or img["oy"] != 0:
-            return "F91" if d == 16 else "F92"
-        if d == 16 and straddles(img, enc):
-            return "F90"
+    if img["depth"] in (16, 32) and enc == "raw":
+        return "F34"
     return None
 
 
@@ -456,8 +452,7 @@ def _claimed(fid):
 
 
 # the class test itself is in classify()/f30b(): geometry/segmentation predicates over the spec object, one root cause each
-MATCHERS = {"c06_raw_hicolour": _claimed("F34"), "c06_16bit_offsets": _claimed("F91"), "c06_32bit_offsets": _claimed("F92"),
-            "c06_16bit_plane_straddle": _claimed("F90"), "c06_8bit_raw_vs_packed_length": _claimed("F30b")}
+MATCHERS = {"c06_raw_hicolour": _claimed("F34"), "c06_8bit_raw_vs_packed_length": _claimed("F30b")}
 
 
 def nontrivial(case, io_):
